@@ -1955,6 +1955,18 @@ class Parser:
             self.advance()
             return value
 
+        elif token.type in (
+            TokenType.NEWLINE,
+            TokenType.COMMENT,
+            TokenType.INDENT,
+            TokenType.EOF,
+            TokenType.ENVELOPE_END,
+        ):
+            # KEY:: with nothing after it on the line: the value is empty. The structural
+            # token is not part of it (it used to become the value: "\n", or the comment
+            # text) and is left for the caller.
+            return ""
+
         else:
             # Try to consume as bare word
             value = str(token.value)
